@@ -6,6 +6,7 @@ import (
 	"strings"
 
 	"github.com/akrennmair/updog"
+	"github.com/akrennmair/updog/zzverif/flk"
 	"github.com/akrennmair/updog/zzverif/ix"
 	"github.com/akrennmair/updog/zzverif/model"
 	"github.com/akrennmair/updog/zzverif/rt"
@@ -119,6 +120,10 @@ func c02FamilyRows() []model.Row {
 		{"a": "1", "b": "1", "c": "Z", "d": "é"},
 		{"a": "10", "b": "100", "c": "\xff", "d": "a"},
 		{"a": "", "b": " ", "c": "e", "d": "A"},
+		// a value that is a prefix of another one which continues with a NUL byte / a low character
+		{"a": "p", "b": "z", "c": "1", "d": "1"},
+		{"a": "p\x00q", "b": "c", "c": "1", "d": "1"},
+		{"a": "p\x01", "b": "b", "c": "1", "d": "1"},
 	}
 }
 
@@ -203,12 +208,14 @@ func compareGrouped(d *model.Data, me *model.Expr, gb []string, idx *updog.Index
 type c02Args struct {
 	Rows   int  `json:"rows"`
 	Family bool `json:"family"`
+	Wide   bool `json:"wide"`
 	// Configs: "all" = every writer x mode for every dataset; "rot" = one configuration per dataset, rotating;
 	// "tenth" = all for every 10th dataset, rotating otherwise.
 	Configs string `json:"configs"`
 }
 
 func c02Worker(ctx *rt.Ctx, job *rt.Job) []*rt.Violation {
+	flk.Sequential(true) // single goroutine: a lock of updog or bbolt that cannot be taken now never will be (reported as a hang)
 	var a c02Args
 	job.Decode(&a)
 	exprs := c02Exprs()
@@ -219,6 +226,15 @@ func c02Worker(ctx *rt.Ctx, job *rt.Job) []*rt.Violation {
 		gls = append(lists([]string{"a", "b", "c", "d"}, 0, 4), lists([]string{"a", "d"}, 5, 6)...)
 		gls = append(gls, []string{"a", "b", "c", "d", "a", "d"}, []string{"d", "c", "b", "a", "d", "c"}, []string{"a", "b", "c", "d", "zz"})
 		exprs = append(exprs, model.Eq("d", "2"), model.Not(model.Eq("c", "1")))
+	} else if a.Wide {
+		// a group-by column with more than 1000 distinct values (1100) next to small ones
+		var rows []model.Row
+		for i := 0; i < 1100; i++ {
+			rows = append(rows, model.Row{"a": fmt.Sprintf("v%04d", (i*7)%1100), "b": fmt.Sprint(i % 3), "c": fmt.Sprint(i % 2)})
+		}
+		dss = [][]model.Row{rows}
+		gls = [][]string{{"a"}, {"b", "a"}, {"a", "b"}, {"a", "a"}, {"c", "b", "a"}, {"b"}}
+		exprs = []*model.Expr{model.Not(model.Eq("a", "none")), model.Eq("b", "1"), model.Not(model.Eq("c", "0"))}
 	} else {
 		dss = c02Datasets(a.Rows)
 	}
@@ -289,11 +305,11 @@ func c02Worker(ctx *rt.Ctx, job *rt.Job) []*rt.Violation {
 			removeFile(p)
 		}
 		ctx.Cov.Add("datasets", 1)
-		if a.Family || di == 700+job.Shard {
+		if a.Family || a.Wide || di == 700+job.Shard {
 			ctx.Cov.Sample(1, map[string]any{"rows": rowsSig(rows), "expr": exprs[2].String(), "group_by": gls[len(gls)-1]})
 		}
 	}
-	if job.Shard == 0 && !a.Family {
+	if job.Shard == 0 && !a.Family && !a.Wide {
 		ctx.Cov.Note(fmt.Sprintf("space_rows_le_%d", a.Rows), fmt.Sprintf("%d datasets (all sequences of 0..%d rows over 36 row shapes of columns a,b,c) x %d expressions x %d group-by lists (all lists of length 0..4 over a,b,c,unknown + all of length 5..6 over a,b); configurations: %s", len(dss), a.Rows, len(exprs), len(gls), a.Configs))
 	}
 	return nil
@@ -308,6 +324,7 @@ func c02Run(ctx *rt.Ctx) []*rt.Violation {
 		}
 	}
 	add("family", c02Args{Family: true, Configs: "all"}, 1)
+	add("wide", c02Args{Wide: true, Configs: "all"}, 1)
 	if ctx.Thorough() {
 		add("n3", c02Args{Rows: 3, Configs: "rot"}, 64)
 		add("n2", c02Args{Rows: 2, Configs: "all"}, 16)
@@ -317,7 +334,7 @@ func c02Run(ctx *rt.Ctx) []*rt.Violation {
 	outs := rt.RunJobs(ctx, jobs, rt.SpawnOpt{})
 	vs := rt.Collect(ctx, outs, nil)
 	ctx.Cov.Note("rule", "every (dataset, expression, group-by list, configuration) of the finite space is executed with a fresh Query on the real index and the full group list (tuples, counts, order, column names) compared with a brute-force GROUP BY model; non-trivial = list of >=2 columns yielding >=2 groups (counted once per dataset x expression x list)")
-	ctx.Assumef("datasets beyond the small-scope product (<=3 rows over 36 shapes) and the dedicated 10-row family are not covered")
+	ctx.Assumef("datasets beyond the small-scope product (<=3 rows over 36 shapes) the dedicated families (17 rows with awkward values; 1100 rows with a 1100-valued column) are not covered")
 	return vs
 }
 
